@@ -265,8 +265,11 @@ pub fn copyout<S: Src, K: Skel>(s: &mut S) -> Verdict {
     cut_errors(0);
     let table = fn_table();
     let mut big: Box<[u8; 8192]> = Box::new([0x55u8; 8192]);
-    let cap = s.usize();
-    vassume!(cap <= p.len() + 2);
+    // capacity: every value from 0 to len + 2 (drawn as len + 2 - d so that sample payloads
+    // also hit the values around the packet length)
+    let d = s.usize();
+    vassume!(d <= p.len() + 2);
+    let cap = p.len() + 2 - d;
     let mut out_len: usize = 7777;
     let rc = unsafe { (table.raw_packet)(&pp, &mut big, &mut out_len, cap) };
     if cap >= p.len() {
